@@ -37,7 +37,7 @@ OBJS = TABLES + ENUMS + GROUPS + REFS + STICKY + PROJ + BAD
 RENAMES = [('A', 'name', 'a9'), ('A', 'name', 'a'), ('B', 'alias', 'y'), ('B', 'alias', 'x'), ('B', 'schema', 's2'),
            ('B', 'schema', 'public'), ('E', 'name', 'b'), ('E', 'name', 'e'), ('C', 'alias', None), ('D', 'alias', 'dd')]
 COLS = ['K1', 'K2', 'K3']
-IDX = ['I1', 'I2', 'IF']       # IF has a foreign column as subject
+IDX = ['I1', 'I1c', 'I2', 'IF']       # I1c equals I1 (duplicates are allowed in a table); IF has a foreign column as subject
 TOPS = [('add', o) for o in OBJS] + [('delete', o) for o in OBJS if o not in BAD] + [('delete', 'X1')] + \
        [('rename',) + r for r in RENAMES] + [('render', 'sql'), ('render', 'dbml')]
 TABLE_OPS = [('add_column', t, k) for t in ('A', 'E') for k in COLS] + [('delete_column', t, k) for t in ('A', 'E') for k in COLS] + \
@@ -86,6 +86,7 @@ class World:
         o['X1'], o['X2'] = object(), 'a string'
         o['K1'], o['K2'], o['K3'] = Column('k1', 'int'), Column('k2', 'int'), Column('id', 'int')
         o['I1'] = Index([o['A'].columns[0]], name='i1')
+        o['I1c'] = Index([o['A'].columns[0]], name='i1')
         o['I2'] = Index([o['A'].columns[1], o['A'].columns[0]], unique=True)
         o['IF'] = Index([o['B'].columns[0]])
         self.o = o
@@ -211,7 +212,20 @@ def apply(w: World, op):
             return st_, probs
         tw = w.twin(n)
         if n not in m[lst] and tw is not None and tw in m[lst] and w.equal_now(n, tw):
-            return 'skipped', probs      # deleting through an equal copy: not fixed by the statement
+            # deleting through an equal-but-not-identical object: the statement does not fix whether equality or
+            # identity selects the victim.  Valid outcomes: refused (validation error, nothing changes) or the
+            # stored twin is removed; the invariants then demand that whatever left the container is detached and
+            # that the object passed in (never contained) still points to nothing.
+            try:
+                db.delete(obj)
+                m[lst].remove(tw)
+                st_ = 'accepted'
+            except E.DatabaseValidationError:
+                st_ = 'rejected'
+            except Exception as e:  # noqa
+                probs.append(f'{op}: raised {type(e).__name__}: {e}')
+                st_ = 'rejected'
+            return st_, probs
         reject = n not in m[lst]
         st_ = call(lambda: db.delete(obj), reject)
         if st_ == 'accepted' and not reject:
@@ -327,13 +341,31 @@ def apply(w: World, op):
         _, tn, iname = op
         t, ix = o[tn], o[iname]
         present = any(ix is x for x in w.idx[tn])
-        if not present and any(x == ix for x in t.indexes):
-            return 'skipped', probs
-        st_ = call(lambda: t.delete_index(ix), not present, (E.IndexNotFoundError,))
-        if st_ == 'accepted' and present:
-            w.idx[tn] = [x for x in w.idx[tn] if x is not ix]
-            w.gone_idx = getattr(w, 'gone_idx', []) + [ix]
-        return st_, probs
+        equal_present = any(x == ix for x in t.indexes)
+        if not present and not equal_present:
+            return call(lambda: t.delete_index(ix), True, (E.IndexNotFoundError,)), probs
+        # an equal index may be stored next to (or instead of) the one passed in: exactly ONE element equal to the
+        # argument leaves the list, it is detached, the others keep their order and stay attached
+        before = list(t.indexes)
+        try:
+            t.delete_index(ix)
+        except E.IndexNotFoundError as e:
+            if present:
+                probs.append(f'{op}: rejected ({e}) although the index is in the table')
+            return 'rejected', probs
+        except Exception as e:  # noqa
+            probs.append(f'{op}: raised {type(e).__name__}: {e}')
+            return 'rejected', probs
+        after = list(t.indexes)
+        gone = [x for x in before if not any(x is y for y in after)]
+        if len(after) != len(before) - 1 or len(gone) != 1 or not (gone[0] is ix or gone[0] == ix):
+            probs.append(f'{op}: {len(before) - len(after)} indexes left the table, expected exactly one equal to the argument')
+        elif [id(x) for x in before if x is not gone[0]] != [id(x) for x in after]:
+            probs.append(f'{op}: the remaining indexes changed order')
+        else:
+            w.idx[tn] = after
+            w.gone_idx = getattr(w, 'gone_idx', []) + gone
+        return 'accepted', probs
     if kind == 'delete_index_pos':
         _, tn, p = op
         t = o[tn]
